@@ -206,7 +206,40 @@ def tlc(module, cfg, workers=16, simulate=None, depth=None, tlc_seed=None, timeo
         tail = "\n".join(other_lines[first:first + 90])
         raise MachineryError("TLC did not finish cleanly on %s/%s (rc=%s): %s\n%s" % (
             module, cfg, returncode, result.error, tail))
+    if os.environ.get("VERIF_AUDIT") and os.sep not in cfg and tag is None:
+        _audit_dimensions(module, cfg, result)
     return result
+
+
+def _audit_dimensions(module, cfg, result):
+    """
+    VERIF_AUDIT=<folder>: for every TLC run write which values each scalar field of the emitted behaviours took (nested records
+    and the items of short sequences included). A dimension of the model constants that never shows up here was never
+    explored -- the vacuity `FieldDateTime.tla` once had (DESIGN.md section 12, correction 22). Read by tools/vacuity_audit.py.
+    """
+    seen = {}
+
+    def visit(path, value, depth):
+        if isinstance(value, (str, int, bool)) or value is None:
+            values = seen.setdefault(path, set())
+            if len(values) < 60:
+                values.add(json.dumps(value))
+        elif isinstance(value, dict) and depth < 4:
+            for key, item in value.items():
+                visit(path + "." + str(key), item, depth + 1)
+        elif isinstance(value, list) and depth < 4:
+            values = seen.setdefault(path + ".#len", set())
+            if len(values) < 60:
+                values.add(json.dumps(len(value)))
+            for item in value[:12]:
+                visit(path + "[]", item, depth + 1)
+
+    for tag_name, obj in result.vectors:
+        visit(tag_name, obj, 0)
+    folder = os.environ["VERIF_AUDIT"]
+    os.makedirs(folder, exist_ok=True)
+    with open(os.path.join(folder, "%s__%s.json" % (module, cfg.replace(".cfg", ""))), "w") as target:
+        json.dump({path: sorted(values) for path, values in sorted(seen.items())}, target, indent=1)
 
 
 def apalache_inductive(module, init, inv, cinit="ConstInit", timeout=600):
